@@ -52,6 +52,38 @@ func (u *Universe) verifyFunc(fi *FuncInfo) (obls []*Obl, rep FuncReport) {
 			obls = nil
 		}
 	}()
+	// a global ghost variable must not share its name with a variable of the function: hook
+	// bodies are evaluated in the scope of the call site, where the ghost would win silently
+	{
+		gh := map[string]bool{}
+		for _, g := range u.cs.Ghosts {
+			gh[g.Name] = true
+		}
+		var clash []string
+		ast.Inspect(fi.Decl, func(n ast.Node) bool {
+			if id, ok := n.(*ast.Ident); ok && gh[id.Name] {
+				if obj := fi.Pkg.TypesInfo.Defs[id]; obj != nil {
+					if _, isVar := obj.(*types.Var); isVar {
+						clash = append(clash, id.Name)
+					}
+				}
+			}
+			return true
+		})
+		if len(clash) > 0 && len(con.UseHooks) > 0 {
+			active := map[string]bool{}
+			for _, hs := range con.UseHooks {
+				active[hs] = true
+			}
+			for _, c := range clash {
+				for _, h := range u.cs.Hooks {
+					if active[h.Set] && (containsWord(h.Src, c) || mentionsVar(h.Src, c)) {
+						panic(fmt.Sprintf("contract: ghost variable %q, used by hook set %q, has the name of a variable of %s", c, h.Set, name))
+					}
+				}
+			}
+		}
+	}
 	e.numberSites(fi.Decl.Body)
 	e.owned = e.ownedSlices(fi.Decl.Body)
 	e.privUntil = e.privateUntil(fi.Decl.Body)
